@@ -1,0 +1,16 @@
+//go:build verif
+// +build verif
+
+package engine
+
+// VerifHook, when set, is called at named points of the pool. It only exists in builds
+// with the tag "verif" (runtime monitors of the verification harness: shadow bookkeeping
+// under the pool's own locks, seeded delays between critical sections).
+// It must be set before the pool is used and not changed afterwards.
+var VerifHook func(point string, tag int64)
+
+func verifPoint(point string, tag int64) {
+	if h := VerifHook; h != nil {
+		h(point, tag)
+	}
+}
